@@ -181,38 +181,49 @@ class Gen:
         return "F %d %s" % (nb, " ".join(repr(x) for v in vals for x in v))
     def pt(self): return " ".join(fl(self.dy(-1, 1)) for _ in range(3))
 
-    def calls_core(self, ops, coords, sph, ncalls=10, routines=None, flags_off=True):
-        r = self.r; out = []
+    ALLR = ["b2b", "base2b", "orient", "jac", "jac6", "sjac", "pvel", "pvel6", "pacc", "pacc6", "updkin", "updkinc",
+            "id", "nle", "crba", "fd", "fdl", "minv", "com", "zmp", "ke", "pe", "scramble"]
+    def make_call(self, rt, ops, coords, sph):
+        r = self.r
+        q, qd, qdd, tau = self.state(coords, sph)
         refs = [str(k) for k in range(len(ops))]
-        allr = routines or ["b2b", "base2b", "orient", "jac", "jac6", "sjac", "pvel", "pvel6", "pacc", "pacc6", "updkin", "updkinc",
-                            "id", "nle", "crba", "fd", "fdl", "minv", "com", "zmp", "ke", "pe", "scramble"]
-        ndof = len(coords)
+        d = dict(rt=rt, Q=self.vec(q), QD=self.vec(qd), QDD=self.vec(qdd), TAU=self.vec(tau), flag=1,
+                 ref=r.choice(refs + (["base"] if r.random() < 0.1 else [])), pt=self.pt())
+        if rt in ("id", "nle", "fd", "fdl"): d["F"] = self.fext(ops)
+        if rt == "fdl": d["solver"] = r.randint(1, 4)
+        if rt == "updkinc": d["mask"] = r.choice([1, 3, 7])
+        if rt == "com": d["has"] = r.random() < 0.7
+        if rt == "zmp": d["n"] = " ".join(repr(float(x)) for x in self.axis()); d["p"] = self.pt()
+        if rt == "scramble": d["k"] = r.randint(0, 9)
+        return d
+    def render(self, d):
+        rt = d["rt"]; fl_ = d["flag"]
+        if rt in ("b2b", "base2b", "jac", "jac6"): return "%s %s %s %d %s" % (rt, d["ref"], d["pt"], fl_, d["Q"])
+        if rt in ("orient", "sjac"): return "%s %s %d %s" % (rt, d["ref"], fl_, d["Q"])
+        if rt in ("pvel", "pvel6"): return "%s %s %s %d %s %s" % (rt, d["ref"], d["pt"], fl_, d["Q"], d["QD"])
+        if rt in ("pacc", "pacc6"): return "%s %s %s %d %s %s %s" % (rt, d["ref"], d["pt"], fl_, d["Q"], d["QD"], d["QDD"])
+        if rt == "updkin": return "updkin %s %s %s" % (d["Q"], d["QD"], d["QDD"])
+        if rt == "updkinc": return "updkinc %d %s %s %s" % (d["mask"], d["Q"], d["QD"], d["QDD"])
+        if rt == "updboth": return "updboth %s %s %s" % (d["Q"], d["QD"], d["QDD"])
+        if rt == "id": return "id %s %s %s %s" % (d["Q"], d["QD"], d["QDD"], d["F"])
+        if rt == "nle": return "nle %s %s %s" % (d["Q"], d["QD"], d["F"])
+        if rt == "crba": return "crba %d %s" % (fl_, d["Q"])
+        if rt == "fd": return "fd %s %s %s %s" % (d["Q"], d["QD"], d["TAU"], d["F"])
+        if rt == "fdl": return "fdl %d %s %s %s %s" % (d["solver"], d["Q"], d["QD"], d["TAU"], d["F"])
+        if rt == "minv": return "minv %d %s %s" % (fl_, d["Q"], d["TAU"])
+        if rt == "com": return "com %d %s %s %s" % (fl_, d["Q"], d["QD"], ("1 " + d["QDD"]) if d["has"] else "0")
+        if rt == "zmp": return "zmp %d %s %s %s %s %s" % (fl_, d["Q"], d["QD"], d["QDD"], d["n"], d["p"])
+        if rt == "ke": return "ke %d %s %s" % (fl_, d["Q"], d["QD"])
+        if rt == "pe": return "pe %d %s" % (fl_, d["Q"])
+        if rt == "scramble": return "scramble %d" % d["k"]
+        if rt == "ltl": return "ltl %s %s" % (d["Q"], d["TAU"])
+        if rt == "hprops": return "hprops %s %s" % (d["Q"], d["QD"])
+        raise ValueError(rt)
+    def calls_core(self, ops, coords, sph, ncalls=10, routines=None, flags_off=True):
+        out = []
         for _ in range(ncalls):
-            rt = r.choice(allr); self.count("calls", rt)
-            q, qd, qdd, tau = self.state(coords, sph)
-            Q, QD, QDD, TAU = self.vec(q), self.vec(qd), self.vec(qdd), self.vec(tau)
-            ref = r.choice(refs + (["base"] if r.random() < 0.1 else []))
-            if rt in ("b2b", "base2b"): out.append("%s %s %s 1 %s" % (rt, ref, self.pt(), Q))
-            elif rt == "orient": out.append("orient %s 1 %s" % (ref, Q))
-            elif rt in ("jac", "jac6"): out.append("%s %s %s 1 %s" % (rt, ref, self.pt(), Q))
-            elif rt == "sjac": out.append("sjac %s 1 %s" % (ref, Q))
-            elif rt in ("pvel", "pvel6"): out.append("%s %s %s 1 %s %s" % (rt, ref, self.pt(), Q, QD))
-            elif rt in ("pacc", "pacc6"): out.append("%s %s %s 1 %s %s %s" % (rt, ref, self.pt(), Q, QD, QDD))
-            elif rt == "updkin": out.append("updkin %s %s %s" % (Q, QD, QDD))
-            elif rt == "updkinc": out.append("updkinc %d %s %s %s" % (r.choice([1, 3, 7]), Q, QD, QDD))
-            elif rt == "id": out.append("id %s %s %s %s" % (Q, QD, QDD, self.fext(ops)))
-            elif rt == "nle": out.append("nle %s %s %s" % (Q, QD, self.fext(ops)))
-            elif rt == "crba": out.append("crba 1 %s" % Q)
-            elif rt == "fd": out.append("fd %s %s %s %s" % (Q, QD, TAU, self.fext(ops)))
-            elif rt == "fdl": out.append("fdl %d %s %s %s %s" % (r.randint(1, 4), Q, QD, TAU, self.fext(ops)))
-            elif rt == "minv": out.append("minv 1 %s %s" % (Q, TAU))
-            elif rt == "com": out.append("com 1 %s %s %s" % (Q, QD, ("1 " + QDD) if r.random() < 0.7 else "0"))
-            elif rt == "zmp":
-                n = [float(x) for x in self.axis()]
-                out.append("zmp 1 %s %s %s %s %s" % (Q, QD, QDD, " ".join(repr(x) for x in n), self.pt()))
-            elif rt == "ke": out.append("ke 1 %s %s" % (Q, QD))
-            elif rt == "pe": out.append("pe 1 %s" % Q)
-            elif rt == "scramble": out.append("scramble %d" % r.randint(0, 9))
+            rt = self.r.choice(routines or self.ALLR); self.count("calls", rt)
+            out.append(self.render(self.make_call(rt, ops, coords, sph)))
         return out
 
     def case_core(self, idx):
@@ -220,14 +231,192 @@ class Gen:
         if not coords: lines2, ops2, coords, sph = self.model(kinds=["revz", "revx", "ezyx"]); lines, ops = lines2, ops2
         return ["case c%d" % idx] + lines + ["dump"] + self.calls_core(ops, coords, sph, ncalls=12)
 
-def generate(profile, seed, ncases, outfile):
-    g = Gen(seed, profile)
+    # ------------------------------------------------------------------ property profiles
+    def _model_nonempty(self, **kw):
+        for _ in range(20):
+            lines, ops, coords, sph = self.model(**kw)
+            if coords: return lines, ops, coords, sph
+        return self.model(kinds=["revz", "revx", "ezyx"])
+    def _with_calls(self, idx, routines, ncalls=10, scramble=0.2, **kw):
+        lines, ops, coords, sph = self._model_nonempty(**kw)
+        calls = []
+        for cl in self.calls_core(ops, coords, sph, ncalls=ncalls, routines=routines):
+            if self.r.random() < scramble: calls.append("scramble %d" % self.r.randint(0, 9))
+            calls.append(cl)
+        return ["case x"] + lines + ["dump"] + calls
+    def case_C01(self, idx): return self._with_calls(idx, ["id"], ncalls=8)
+    def case_C02(self, idx): return self._with_calls(idx, ["fd", "fd", "fdl", "minv"], ncalls=8)
+    def case_C03(self, idx): return self._with_calls(idx, ["crba", "nle", "id", "ltl", "hprops"], ncalls=10)
+    def case_C04(self, idx): return self._with_calls(idx, ["b2b", "base2b", "orient"], ncalls=10)
+    def case_C05(self, idx): return self._with_calls(idx, ["jac", "jac6", "sjac"], ncalls=8)
+    def case_C06(self, idx): return self._with_calls(idx, ["pvel", "pvel6", "pacc", "pacc6", "updkin", "updkinc", "updboth"], ncalls=10)
+    def case_C12(self, idx): return self._with_calls(idx, ["com", "zmp", "ke", "pe", "fd"], ncalls=10)
+
+    # documented preceding update for the flag-cleared form, and the observable to compare
+    FLAGGED = {"b2b": ("q", "b2b"), "base2b": ("q", "base2b"), "orient": ("q", "orient"), "jac": ("q", "jac"), "jac6": ("q", "jac6"),
+               "sjac": ("q", "sjac"), "pvel": ("qd", "pvel"), "pvel6": ("qd", "pvel6"), "pacc": ("full", "pacc"), "pacc6": ("full", "pacc6"),
+               "com": ("com", "com"), "zmp": ("qdd", "zmp"), "ke": ("qd", "ke"), "crba": ("crba", "H"), "minv": ("minv", "qdd")}
+    def case_C13(self, idx):
+        """random histories: unrelated calls and scrambles, then the call under test; and the flag-cleared form after
+        the documented preceding update, which must reproduce the flag-set result"""
+        r = self.r
+        lines, ops, coords, sph = self._model_nonempty()
+        out = ["case x"] + lines
+        allr = [x for x in self.ALLR if x != "scramble"]
+        for _ in range(4):
+            out += self.calls_core(ops, coords, sph, ncalls=r.randint(0, 3), routines=allr + ["scramble", "scramble"])
+            rt = r.choice(allr); self.count("calls", rt)
+            d = self.make_call(rt, ops, coords, sph)
+            out.append(self.render(d)); seq_set = len(out) - 2
+            if rt in self.FLAGGED and r.random() < 0.7:
+                pre, lab = self.FLAGGED[rt]
+                out.append("scramble %d" % r.randint(0, 9))
+                if pre == "q": out.append("updkinc 1 %s %s %s" % (d["Q"], d["QD"], d["QDD"]))
+                elif pre == "qd": out.append("updkinc 3 %s %s %s" % (d["Q"], d["QD"], d["QDD"]))
+                elif pre == "qdd": out.append("updkinc 7 %s %s %s" % (d["Q"], d["QD"], d["QDD"]))
+                elif pre == "com": out.append("updkinc %d %s %s %s" % (7 if d["has"] else 3, d["Q"], d["QD"], d["QDD"]))
+                elif pre == "full": out.append("updkin %s %s %s" % (d["Q"], d["QD"], d["QDD"]))
+                elif pre == "crba": out.append("crba 1 " + d["Q"])
+                elif pre == "minv": out.append("minv 1 %s %s" % (d["Q"], d["TAU"]))
+                d2 = dict(d); d2["flag"] = 0
+                if rt == "minv": d2["TAU"] = self.vec(self.state(coords, sph)[3]); d["TAU"] = d2["TAU"]
+                out.append(self.render(d2))
+                if rt == "minv":
+                    # M^-1 tau with another tau: compare against a fresh flag-set call with the same tau
+                    out.append(self.render(d)); self.meta["same"].append((len(out) - 3, len(out) - 2, "qdd"))
+                else:
+                    labs = [lab] if rt != "com" else ["mass", "com", "comvel", "angmom"] + (["comacc", "dangmom"] if d["has"] else [])
+                    for lb in labs: self.meta["same"].append((seq_set, len(out) - 2, lb))
+        return out
+
+    def case_C14(self, idx):
+        """construction sequences with a rejected call injected; dump before and after every add"""
+        r = self.r
+        lines, ops, coords, sph = self.model(nmin=2, nmax=8)
+        out = ["case x", lines[0]]
+        adds = lines[1:]
+        inject_at = r.randrange(len(adds) + 1)
+        used_names = []
+        body = "body 1.5 0.1 0.0 -0.1 0.5 0.0 0.0 0.0 0.6 0.0 0.0 0.0 0.7 0"
+        for k, a in enumerate(adds + [None]):
+            if k == inject_at:
+                kind = r.choice(["dupname", "dupname_fixed", "dupname_emu", "dupname_custom", "root", "bad", "dupname_float"])
+                nm = r.choice(used_names) if used_names and kind.startswith("dup") else 1
+                if kind == "bad": nm = 0
+                jt = {"dupname": "revy", "dupname_fixed": "fixed", "dupname_emu": "emu 3 0.0 0.0 1.0 0.0 0.0 0.0 0.0 1.0 0.0 0.0 0.0 0.0 0.0 0.0 0.0 1.0 0.0 0.0",
+                      "dupname_custom": "crztx", "root": "revz", "bad": "bad", "dupname_float": "float"}[kind]
+                par = "base" if k == 0 else r.choice(["base", "prev", str(r.randrange(k))])
+                out.append("dump")
+                out.append("add %s %d E 1.0 0.0 0.0 0.0 1.0 0.0 0.0 0.0 1.0 r 0.25 0.0 -0.5 %s joint %s" % (par, nm, body, jt))
+                out.append("dump")
+                self.count("rejected_ops", kind)
+                # the generator's op index shifts by one for later references
+                adds = [self._shift_refs(x, k) if x else x for x in adds]
+            if a is None: break
+            a = adds[k]
+            t = a.split(); nmv = int(t[2])
+            if nmv > 1: used_names.append(nmv)
+            out.append(a)
+        out.append("dump")
+        if coords:
+            out += self.calls_core(ops, coords, sph, ncalls=3, routines=["id", "b2b", "crba", "fd"])
+            # references in these calls also shift
+            out = out[:-3] + [self._shift_call_ref(x, inject_at) for x in out[-3:]]
+        return out
+    def _shift_refs(self, line, k):
+        t = line.split()
+        if t[0] == "add" and t[1].isdigit() and int(t[1]) >= k: t[1] = str(int(t[1]) + 1)
+        return " ".join(t)
+    def _shift_call_ref(self, line, k):
+        t = line.split()
+        if t[0] in ("b2b", "base2b", "orient", "jac", "jac6", "sjac", "pvel", "pvel6", "pacc", "pacc6") and t[1].isdigit() and int(t[1]) >= k: t[1] = str(int(t[1]) + 1)
+        return " ".join(t)
+
+    def case_C15(self, idx):
+        """setters on movable bodies without attachments and on fixed bodies, followed by dynamics; Join / Separate"""
+        r = self.r
+        lines, ops, coords, sph = self._model_nonempty(nmin=2, nmax=6, kinds=[k for k in self.JOINTS if k != "float"] + ["fixed", "fixed"])
+        out = ["case x"] + lines
+        has_child = set()
+        for o in ops:
+            if o["parent"].isdigit(): has_child.add(int(o["parent"]))
+        prev_k = None
+        for k, o in enumerate(ops):
+            if o["parent"] == "prev" and k > 0: has_child.add(k - 1)
+        cand = [k for k, o in enumerate(ops) if o["fixed"] or (k not in has_child and o["kind"] != "emu" and not o["massless"])]
+        for _ in range(r.randint(1, 4)):
+            if not cand: break
+            k = r.choice(cand); b = self.body()
+            which = r.choice(["setmass", "setcom", "setinertia", "setall"])
+            I9 = " ".join(fl(x) for row in b["I"] for x in row); c3 = " ".join(fl(x) for x in b["c"])
+            if which == "setmass": out.append("setmass %d %s" % (k, fl(b["m"])))
+            elif which == "setcom": out.append("setcom %d %s" % (k, c3))
+            elif which == "setinertia": out.append("setinertia %d %s" % (k, I9))
+            else: out.append("setall %d %s %s %s" % (k, fl(b["m"]), I9, c3))
+        out.append("dump")
+        out += self.calls_core(ops, coords, sph, ncalls=4, routines=["id", "crba", "fd", "com"])
+        for _ in range(3):
+            a = self.body(); b = self.body(massless=r.random() < 0.1)
+            E = self.rot(); rr = [self.dy(-1, 1) for _ in range(3)]
+            f = lambda bb: "%s %s %s" % (fl(bb["m"]), " ".join(fl(x) for x in bb["c"]), " ".join(fl(x) for row in bb["I"] for x in row))
+            out.append("join %s %s %s %s" % (" ".join(fl(x) for row in E for x in row), " ".join(fl(x) for x in rr), f(a), f(b)))
+        return out
+
+    def case_C16(self, idx):
+        r = self.r; out = ["case x"]
+        f = lambda v: " ".join(fl(x) for x in v)
+        def st(): return f([x for row in self.rot() for x in row]) + " " + f([self.dy(-2, 2) for _ in range(3)])
+        def sv(): return f([self.dy(-2, 2) for _ in range(6)])
+        def rbi():
+            b = self.body(); return "%s %s %s" % (fl(b["m"]), f(b["c"]), f([x for row in b["I"] for x in row]))
+        def uq(): return " ".join(repr(x) for x in self.unit_quat())
+        for _ in range(12):
+            op = r.choice(["apply", "applyT", "applyAdj", "inv", "mul", "tomat", "tomatadj", "tomatT", "rbiapply", "rbiapplyT", "rbimulv",
+                           "crossm", "crossf", "qmul", "qtomat", "qfrommat", "qrot", "qomega", "xrot", "gauss"])
+            self.count("calls", op)
+            if op in ("apply", "applyT", "applyAdj"): out.append("l1 %s %s %s" % (op, st(), sv()))
+            elif op in ("inv", "tomat", "tomatadj", "tomatT"): out.append("l1 %s %s" % (op, st()))
+            elif op == "mul": out.append("l1 mul %s %s" % (st(), st()))
+            elif op in ("rbiapply", "rbiapplyT"): out.append("l1 %s %s %s" % (op, st(), rbi()))
+            elif op == "rbimulv": out.append("l1 rbimulv %s %s" % (rbi(), sv()))
+            elif op in ("crossm", "crossf"): out.append("l1 %s %s %s" % (op, sv(), sv()))
+            elif op == "qmul": out.append("l1 qmul %s %s" % (uq(), uq()))
+            elif op == "qtomat": out.append("l1 qtomat %s" % uq())
+            elif op == "qfrommat":
+                # rotation matrices incl. half-turns (trace -1) and rotations close to them
+                E = self.rot()
+                if r.random() < 0.3:
+                    a = self.axis(); E = [[2 * a[i] * a[j] - (1 if i == j else 0) for j in range(3)] for i in range(3)]
+                out.append("l1 qfrommat %s" % f([x for row in E for x in row]))
+            elif op == "qrot": out.append("l1 qrot %s %s" % (uq(), f([self.dy(-2, 2) for _ in range(3)])))
+            elif op == "qomega": out.append("l1 qomega %s %s" % (uq(), f([self.dy(-2, 2) for _ in range(3)])))
+            elif op == "xrot": out.append("l1 xrot %s %s" % (fl(self.dy(-3, 3)), f(self.axis())))
+            elif op == "gauss":
+                n = r.randint(1, 5)
+                A = [[self.dy(-2, 2) + (4 if i == j else 0) for j in range(n)] for i in range(n)]
+                out.append("l1 gauss %d %s %d %s" % (n, f([x for row in A for x in row]), n, f([self.dy(-2, 2) for _ in range(n)])))
+        self.meta["nontrivial"] = True
+        return out
+
+def generate(profile, seed, ncases, outfile, prefix="c"):
+    g = Gen(seed, profile); metas = []
     with open(outfile, "w") as f:
         for i in range(ncases):
+            g.meta = {"same": []}
             lines = getattr(g, "case_" + profile)(i)
-            f.write("\n".join(lines) + "\n")
-    return g.stats
+            name = "%s%d" % (prefix, i)
+            lines[0] = "case " + name
+            g.meta["case"] = name
+            text = "\n".join(lines)
+            kinds = sorted(set(tok for l in lines if l.startswith("add ") for tok in [l[l.index("joint ") + 6:].split()[0]]))
+            calls = sorted(set(l.split()[0] for l in lines if not l.startswith(("add ", "case ", "gravity", "dump", "set"))))
+            g.meta["sig"] = "|".join(kinds) + "/" + "|".join(calls) + "/" + str(sum(1 for l in lines if l.startswith("add ")))
+            g.meta["nontrivial"] = g.meta.get("nontrivial", any(l.startswith("add ") and " E 1.0 0.0 0.0 0.0 1.0 0.0 0.0 0.0 1.0 " not in l and " E 1 0 0 0 1 0 0 0 1 " not in l for l in lines))
+            metas.append(g.meta)
+            f.write(text + "\n")
+    return g.stats, metas
 
 if __name__ == "__main__":
     profile, seed, n, out = sys.argv[1], int(sys.argv[2]), int(sys.argv[3]), sys.argv[4]
-    print(json.dumps(generate(profile, seed, n, out)))
+    st, mt = generate(profile, seed, n, out)
+    print(json.dumps(st))
